@@ -40,6 +40,7 @@ struct OpResult {
 	int start_cond_before = 0; // coverage only
 	int inc_depth_before = 0;  // coverage only
 	std::vector<std::string> aux; // extra observations (restart texts, freshness ...)
+	json tree;                    // structured form of the dump (when ExecOpts::want_tree)
 	std::string line() const;  // canonical one-line rendering (event log)
 };
 
@@ -51,6 +52,7 @@ struct ExecOpts {
 	int fill_override = -1;  // use this fill byte instead of the plan's knob
 	int errno_override = -1000; // if != -1000: ambient errno before every API call
 	int tty_override = -1;
+	bool want_tree = false;  // also record the dump as a JSON tree
 };
 
 struct RunResult {
